@@ -229,6 +229,8 @@ type tableSpec struct {
 	// rows are struct VALUES (state.ServiceVirtualIP, state.FreeVirtualIP), not pointers: the table maps the key to
 	// the boxed value (the interface payload); fields are read from the unboxed datatype, there is no allocation fact
 	valueRow bool
+	// rows are plain strings (peering-secret-uuids): a value-row table whose key is the (lower-cased) string itself
+	strRow bool
 	// the id index is compound and is queried with one struct argument per component: the field of argument i that
 	// carries component i
 	idArgFields []string
@@ -311,6 +313,9 @@ func init() {
 		indexes: map[string]indexSpec{
 			"upstream":   {kind: "multieq", fields: []string{"Upstream.Name"}, lowers: []bool{true}, argFields: []string{"Name"}},
 			"downstream": {kind: "multieq", fields: []string{"Downstream.Name"}, lowers: []bool{true}, argFields: []string{"Name"}}}})
+	addTable(&tableSpec{name: "peering-secrets", rowPkg: consulMod + "/proto/private/pbpeering", rowType: "PeeringSecrets", keyField: "PeerID", lower: true})
+	// peering-secret-uuids: the rows are the secret IDs themselves (strings), keyed by the UUID bytes (hex, so case-insensitive)
+	addTable(&tableSpec{name: "peering-secret-uuids", valueRow: true, strRow: true, lower: true})
 	addTable(&tableSpec{name: "feature-gate-policy", rowPkg: structsPkg, rowType: "FeatureGatePolicy", single: true})
 	addTable(&tableSpec{name: "feature-gate-status", rowPkg: structsPkg, rowType: "FeatureGateStatus", single: true})
 	addTable(&tableSpec{name: "sessions", rowPkg: structsPkg, rowType: "Session", keyField: "ID", lower: true,
@@ -320,6 +325,9 @@ func init() {
 func (e *Engine) tableRowType(t *tableSpec) types.Type {
 	if t.ifaceRow {
 		return e.lookupType(t.ifacePkg, t.ifaceType)
+	}
+	if t.strRow {
+		return types.Typ[types.String]
 	}
 	rt := e.lookupType(t.rowPkg, t.rowType)
 	if rt == nil {
@@ -416,6 +424,13 @@ func (f *Frame) rowKeyIface(st *State, t *tableSpec, iv *Term) *Term {
 
 func (f *Frame) rowKey(st *State, t *tableSpec, ref *Term) *Term {
 	c := f.c
+	if t.strRow {
+		k := f.unbox(st, App("mkI", SIfc, c.tagOf(types.Typ[types.String]), ref), types.Typ[types.String])
+		if t.lower {
+			k = c.strLower(k)
+		}
+		return k
+	}
 	if len(t.keyFields) == 0 {
 		k := f.rowField(st, t, ref, t.keyField)
 		if t.lower {
